@@ -460,7 +460,11 @@ class Run:
             self.cov["samples"].append(x)
 
     def violation(self, replay, no_input=False):
-        """Record a violation with a replay object (dict)."""
+        """Record a violation with a replay object (dict).  At most 25 replay files are written
+        per run; further violations are only counted."""
+        if len(self.violations) >= 25:
+            self.suppressed = getattr(self, "suppressed", 0) + 1
+            return
         os.makedirs(REPLAY, exist_ok=True)
         replay = dict(replay)
         replay["property"] = self.prop
@@ -477,7 +481,7 @@ class Run:
         ev = {
             "property_id": self.prop, "tier": self.tier, "seed": self.seed, "level": self.level,
             "coverage": self.cov, "assumptions": self.assumptions,
-            "wall_s": round(time.time() - self.t0, 2), "violations": len(self.violations),
+            "wall_s": round(time.time() - self.t0, 2), "violations": len(self.violations) + getattr(self, "suppressed", 0),
         }
         ev["coverage"].update(self.notes)
         ev["coverage"]["known_findings_reproduced"] = sorted(self.known_hit)
